@@ -90,3 +90,67 @@ Theorem C12_failing_posthook_suppresses_update_refuted :
     (exists r, s_out s = inr r) /\ s_store s = st /\ s_store s <> Z.succ st.
 Proof. exact failing_posthook_suppresses_update_refuted. Qed.
 Print Assumptions C12_failing_posthook_suppresses_update_refuted.
+
+(* ---- end to end: configured hook chains composed with both frontends (Model/TrackerHooks.v: dispatcher /
+   request-line parser -> Logic.serve instantiated with the real response hook and swarm-interaction hook ->
+   response writer).  Hooks are ARBITRARY functions of the context and the response value. *)
+From Chihaya Require Import Model.TrackerHooks Proofs.TrackerHooksP.
+
+(* UDP: a configured pre-hook rejects an accepted announce: store unchanged, exactly one datagram (the error),
+   trace = pre-hooks 0..k only (no later hook, no store read, no store write) *)
+Theorem C12_udp_prehook_reject_wire :
+  forall (S U : Type) (I : store_if S) (pre post : list (@hook U hresp)) mac t u u0 (st : S) clock ip packet txid v6a r q e tr,
+    UdpParse.handle_udp mac (uc_key u) (uc_skew u) clock (uc_opts u) ip packet = UdpParse.UAnnounce txid v6a r q ->
+    run_hooks TPre 0 pre (ctx0 u0) (hresp0 t) [] = (inl e, tr) ->
+    udp_step_h I pre post mac t u u0 st clock ip packet =
+      Some (st, [UdpWrite.write_error txid (UdpWrite.goerr_of e)], tr) /\
+    (exists k, (k < length pre)%nat /\ tr = map TPre (seq 0 (Datatypes.S k))) /\
+    ~ In TFill tr /\ ~ In TApply tr /\ (forall j, ~ In (TPost j) tr).
+Proof. exact @udp_prehook_reject_wire. Qed.
+Print Assumptions C12_udp_prehook_reject_wire.
+
+(* ... and what is sent does not depend on the store: nothing about any swarm is disclosed *)
+Theorem C12_udp_prehook_reject_store_independent :
+  forall (S U : Type) (I : store_if S) (pre post : list (@hook U hresp)) mac t u u0 (st st' : S) clock ip packet txid v6a r q e tr,
+    UdpParse.handle_udp mac (uc_key u) (uc_skew u) clock (uc_opts u) ip packet = UdpParse.UAnnounce txid v6a r q ->
+    run_hooks TPre 0 pre (ctx0 u0) (hresp0 t) [] = (inl e, tr) ->
+    option_map (fun x : S * list (list Z) * list tev => (x.1.2, x.2)) (udp_step_h I pre post mac t u u0 st clock ip packet) =
+    option_map (fun x : S * list (list Z) * list tev => (x.1.2, x.2)) (udp_step_h I pre post mac t u u0 st' clock ip packet).
+Proof. exact @udp_prehook_reject_store_independent. Qed.
+Print Assumptions C12_udp_prehook_reject_store_independent.
+
+Theorem C12_http_prehook_reject_wire :
+  forall (S U : Type) (I : store_if S) (pre post : list (@hook U hresp)) parse_ip header_get split_host t o u0 (st : S) clock uri remote r q e tr,
+    HttpParse.parse_announce parse_ip header_get split_host o uri remote = HttpParse.Accept (r, q) ->
+    run_hooks TPre 0 pre (ctx0 u0) (hresp0 t) [] = (inl e, tr) ->
+    http_announce_step_h I pre post parse_ip header_get split_host t o u0 st clock uri remote =
+      (st, HBody (HttpWrite.error_value e), tr) /\
+    (exists k, (k < length pre)%nat /\ tr = map TPre (seq 0 (Datatypes.S k))) /\
+    ~ In TFill tr /\ ~ In TApply tr /\ (forall j, ~ In (TPost j) tr).
+Proof. exact @http_prehook_reject_wire. Qed.
+Print Assumptions C12_http_prehook_reject_wire.
+
+(* every configured hook accepts, none marks the request: the response written is the one the response hook
+   filled from the store, and the request is applied to the swarm exactly once, after all post-hooks *)
+Theorem C12_udp_accepted_applied_once :
+  forall (S U : Type) (I : store_if S) (pre post : list (@hook U hresp)) mac t u u0 (st : S) clock ip packet txid v6a r q c1 r1 tr1 c2 r2 tr2,
+    UdpParse.handle_udp mac (uc_key u) (uc_skew u) clock (uc_opts u) ip packet = UdpParse.UAnnounce txid v6a r q ->
+    let a := ann_of_areq r in
+    run_hooks TPre 0 pre (ctx0 u0) (hresp0 t) [] = (inr (c1, r1), tr1) -> skip_response c1 = false ->
+    run_hooks TPost 0 post c1 (fill_from I a st r1) [] = (inr (c2, r2), tr2) -> skip_swarm c2 = false ->
+    udp_step_h I pre post mac t u u0 st clock ip packet =
+      Some (swarm_interaction I a clock st, [udp_datagram_of txid v6a a (fill_from I a st r1)],
+            (tr1 ++ [TFill]) ++ map TPost (seq 0 (length post)) ++ [TApply]) /\
+    count_apply ((tr1 ++ [TFill]) ++ map TPost (seq 0 (length post)) ++ [TApply]) = 1%nat.
+Proof. exact @udp_accepted_applied_once. Qed.
+Print Assumptions C12_udp_accepted_applied_once.
+
+(* with no configured hooks the hooked model IS Model/Tracker.v's end-to-end step (C13, C09, C03 theorems carry over) *)
+Theorem C12_udp_step_h_no_hooks :
+  forall (S U : Type) (I : store_if S) mac t u (u0 : U) (st : S) clock ip packet,
+    (forall txid v6a r q, UdpParse.handle_udp mac (uc_key u) (uc_skew u) clock (uc_opts u) ip packet = UdpParse.UAnnounce txid v6a r q ->
+                     respond I (ann_of_areq r) st <> None) ->
+    option_map (fun x : S * list (list Z) * list tev => x.1) (udp_step_h I ([] : list (@hook U hresp)) [] mac t u u0 st clock ip packet) =
+    udp_step I mac t u st clock ip packet.
+Proof. exact @udp_step_h_no_hooks. Qed.
+Print Assumptions C12_udp_step_h_no_hooks.
